@@ -299,6 +299,14 @@ class Value(ArrayCBORSerializable):
         else:
             return self.coin
 
+    @classmethod
+    def from_primitive(cls: Type[Value], value: Any, type_args: Optional[tuple] = None) -> Value:
+        # A value without native assets is serialized as a bare integer (see to_shallow_primitive),
+        # so a bare integer has to be accepted when a Value is deserialized on its own.
+        if isinstance(value, int) and not isinstance(value, bool):
+            return cls(value)
+        return super(Value, cls).from_primitive(value)
+
 
 @dataclass(repr=False)
 class _Script(ArrayCBORSerializable):
